@@ -14,5 +14,11 @@ open Gen.SourceFacts
 theorem gen_expression_eq :
     expressionEq = "if other is None:     return False ; if self._operator != other.operator:     return False ; return self._operands == other.operands" := rfl
 
+/-- the reduction the model `Reduce.utilized` / `Reduce.reduce` mirrors: one backward pass marking the operands of utilized non-terminal rows, then renumbering of the kept rows -/
+theorem gen_reduction :
+    getUtilizedCommands = "util = [False] * stack.shape[0] ; util[-1] = True ; for i in range(1, stack.shape[0]):     node, param1, param2 = stack[-i]     if util[-i] and (not IS_TERMINAL_MAP[node]):         util[param1] = True         if IS_ARITY_2_MAP[node]:             util[param2] = True ; return util" ∧
+    reduceStack = "used_commands = get_utilized_commands(stack) ; reduced_param_map = {} ; num_commands = np.sum(used_commands) ; new_stack = np.empty((num_commands, 3), int) ; j = 0 ; for i, (node, param1, param2) in enumerate(stack):     if used_commands[i]:         new_stack[j, 0] = node         if IS_TERMINAL_MAP[node]:             new_stack[j, 1] = param1             new_stack[j, 2] = param2         else:             new_stack[j, 1] = reduced_param_map[param1]             if IS_ARITY_2_MAP[node]:                 new_stack[j, 2] = reduced_param_map[param2]             else:                 new_stack[j, 2] = new_stack[j, 1]         reduced_param_map[i] = j         j += 1 ; return new_stack" :=
+  ⟨rfl, rfl⟩
+
 end C03Facts
 end Bingo
